@@ -2939,7 +2939,9 @@ static Type *struct_union_decl(Token **rest, Token *tok) {
   if (tag && !equal(tok, "{")) {
     *rest = tok;
 
-    Type *ty2 = find_tag(tag);
+    // "struct T;" declares a new tag in the current scope even if
+    // an enclosing scope has a tag of the same name.
+    Type *ty2 = equal(tok, ";") ? hashmap_get2(&scope->tags, tag->loc, tag->len) : find_tag(tag);
     if (ty2)
       return ty2;
 
